@@ -588,6 +588,7 @@ func Run(c *fw.Ctx) {
 	c.SetRule("every case is enumerated once (all name lists over the label set up to the bound; every byte string over the alphabet up to the bound; structural cases de-duplicated by a set). " +
 		"Non-trivial = (a) the name list is valid (every name ≤ 255 octets) so encoding, reference decoding and library decoding are all compared; " +
 		"(b) the byte string is MUST-ACCEPT for the reference decoder (names are compared and every single edit is explored). " +
+		"(e) both strings of the pair are MUST-ACCEPT and different. " +
 		"MAY-REJECT / REJECT / UNSPECIFIED cases are evaluated with their own oracle and counted separately (coverage.classes).")
 	// the cases allocate many short-lived objects and keep nothing: collect less often during the run
 	defer debug.SetGCPercent(debug.SetGCPercent(800))
@@ -789,8 +790,12 @@ func Run(c *fw.Ctx) {
 		}
 		// pointers at larger offsets: every high byte, four low bytes
 		tgt := []byte{3, 't', 'g', 't', 1, 'x', 0}
+		los := []int{0x00, 0xff}
+		if c.Thorough() {
+			los = []int{0x00, 0x01, 0x7f, 0xff}
+		}
 		for hi := 0; hi < 64; hi++ {
-			for _, lo := range []int{0x00, 0x01, 0x7f, 0xff} {
+			for _, lo := range los {
 				T := hi<<8 | lo
 				if T == 0 || T >= 3 {
 					f := filler(T)
@@ -829,7 +834,7 @@ func Run(c *fw.Ctx) {
 			}
 		})
 		order += int64(len(cases))
-		c.Scope("b2:structural", "what", "label length byte 1..255 with exact / short / unterminated data; names of 254..257 octets (terminated, partial, completed by a pointer); pointers with every high offset byte 0..63 x low {00,01,7f,ff}: backward, forward, label+pointer, mid-name, to the terminator, chain, self, to len(buf), to an unterminated tail, truncated; edits at the first/last 3 names",
+		c.Scope("b2:structural", "what", "label length byte 1..255 with exact / short / unterminated data; names of 254..257 octets (terminated, partial, completed by a pointer); pointers with every high offset byte 0..63 x low {00,ff} (thorough: {00,01,7f,ff}): backward, forward, label+pointer, mid-name, to the terminator, chain, self, to len(buf), to an unterminated tail, truncated; edits at the first/last 3 names",
 			"cases", len(cases), "must_accept", nonTriv.Load())
 		c.Sample(map[string]any{"scope": "b2:structural", "shape": "filler(0x3fff bytes of names) 03 'tgt' 01 'x' 00 01 'p' ff ff", "names": "…, \"tgt.x\", \"p.tgt.x\""})
 	}
@@ -874,6 +879,9 @@ func Run(c *fw.Ctx) {
 	}
 
 	mark("d:entry-points")
+	// ---------------- (e) re-parse into the same object
+	k.reparse(alpha, &order)
+	mark("e:reparse")
 	c.Extra("phase_wall_s", phase)
 	// ---------------- counts
 	for _, w := range []string{labelref.WhyReserved, labelref.WhyPtrOutside, labelref.WhyPtrUnterm, labelref.WhyLong} {
